@@ -785,6 +785,10 @@ fn real_start_check(journal: &Path, dir: &Path) -> Result<(String, u32), String>
                         SubmitResponse::Ok { job, .. } => job.info.id.as_num(),
                         other => return Err(format!("submit refused: {other:?}")),
                     };
+                    if let Some(ms) = std::env::var("VERIF_REALSTART_DELAY_MS").ok().and_then(|v| v.parse::<u64>().ok()) {
+                        // developer switch: keep the restarted server running for a while
+                        tokio::time::sleep(std::time::Duration::from_millis(ms)).await;
+                    }
                     hyperqueue::client::server::client_stop_server(session.connection())
                         .await
                         .map_err(|e| format!("stop: {e:?}"))?;
@@ -1110,6 +1114,7 @@ async fn drain_restored(
         profile: sim.profile.clone(),
         case_choices: Vec::new(),
         genv: sim.genv,
+        last_alloc: None,
         world: cut.world,
         obs: obs2.clone(),
         mon,
